@@ -71,7 +71,7 @@ func (c20) Describe() runner.Description {
 		Assumptions: []string{"the ledger does not predict acceptance (minimum stakes, status transitions are the implementation's); it observes receipts and rules only on double control of an account and refunds above the stake", "the sender's nonce bump of a failed transaction is transaction bookkeeping, not registry/stake accounting"},
 		Real:        []string{"executor (miner apply/add/refund/change-account, operator)", "service MinerManager / RefundManager / RewardCalculator", "core/vmexecutor", "storage/account + trie on goleveldb over simulated storage"},
 		Stub:        []string{"ConsensusHelper", "network", "NTP clock"},
-		FaultKinds:  []string{"map_order_seed", "restart_between_blocks", "height_jump_to_escrow_release", "node_id_in_both_registries"},
+		FaultKinds:  []string{"map_order_seed", "restart_between_blocks", "height_jump_to_escrow_release", "node_id_in_both_registries", "reward_release_height"},
 	}
 }
 
@@ -658,6 +658,57 @@ func (c20) Exec(raw json.RawMessage, st *simrt.Stats, log *simrt.Log) *simrt.Vio
 			st.Probe("rejected_twin_checked")
 		}
 		st.Evaluations++
+	}
+	// reward-release height: every block schedules its reward into the escrow of the next reward height; at that
+	// height the block adds its own reward to the same entries and pays everything out. Twin oracle (no reward
+	// formula needed): the same empty block executed on the state as it is, and on a copy in which the escrow
+	// entries of that height have already been paid out by hand, must leave every account with the same balance.
+	if rb := common.GetRewardBlocks(); p.Seed%5 == 0 && rb > 0 {
+		H := (ec.height/rb + 1) * rb
+		raddr := service.SimRefundAddress(H)
+		base := ec.root
+		common.SetBlockHeight(ec.height)
+		entries := ec.state().GetAllRefund(raddr)
+		if len(entries) > 0 {
+			s2 := ec.state()
+			var keys []common.Address
+			for a := range entries {
+				keys = append(keys, a)
+			}
+			sort.Slice(keys, func(i, j int) bool { return bytes.Compare(keys[i].Bytes(), keys[j].Bytes()) < 0 })
+			for _, a := range keys {
+				s2.RemoveData(raddr, a.Bytes())
+				s2.AddBalance(a, entries[a])
+			}
+			paid, err := s2.Commit(true)
+			if err == nil {
+				err = middleware.AccountDBManagerInstance.GetTrieDB().Commit(paid, false)
+			}
+			if err != nil {
+				panic(runner.InfraError{Msg: "c20 reward twin: " + err.Error()})
+			}
+			h0 := ec.height
+			ec.root, ec.height = base, h0
+			ec.execBlock(H, nil, true)
+			asIs := ec.state()
+			ec.root, ec.height = paid, h0
+			ec.execBlock(H, nil, true)
+			twin := ec.state()
+			st.Fault("reward_release_height")
+			watch := append([]common.Address{}, keys...)
+			for a := range universe {
+				watch = append(watch, a)
+			}
+			for _, a := range watch {
+				if x, y := asIs.GetBalance(a), twin.GetBalance(a); x.Cmp(y) != 0 {
+					return viol(len(p.Blocks), "escrow-release-wrong", "reward-height", "block %d (a reward height): account %s ends with %s; on the same state with the %d escrow entries of that height paid out beforehand it ends with %s", H, a.GetHexString(), x.String(), len(entries), y.String())
+				}
+			}
+			if left := asIs.GetAllRefund(raddr); len(left) != 0 {
+				return viol(len(p.Blocks), "escrow-release-wrong", "entries-left", "block %d (a reward height) leaves %d entries in its own escrow", H, len(left))
+			}
+			st.Evaluations++
+		}
 	}
 	st.State(simrt.HashString(seq))
 	if accepted > 0 && rejected > 0 {
